@@ -1284,3 +1284,33 @@ Proof.
   intros H. specialize (H _ eq_refl (mk_eopt 65001 2 49158) (or_introl eq_refl)).
   destruct H as [H|[H|H]]; discriminate H.
 Qed.
+
+(* (c) what the INGRESS guarantees: when SetEdns0 hands the request on (ch.Next), the request's OPT —
+   the object the writer owns — holds nothing but the forwarded client-subnet copy, whatever the
+   client sent (any number of OPTs, any options, any version) *)
+Lemma ingress_req_opt_clean_l c q e :
+  cfg_wf c -> In e (o_opts (f_wopt (set_edns0 c q))) -> e_code e = code_ecs.
+Proof.
+  intros Hw. unfold set_edns0. destruct (last_opt (m_ex q)) as [o|]; [|intros []].
+  destruct (negb (o_ver o =? 0)); cbn [f_wopt o_opts]; apply fwd_opts_code; exact Hw.
+Qed.
+
+Lemma ingress_wopt_fwd c q : exists l, o_opts (f_wopt (set_edns0 c q)) = fwd_opts c l.
+Proof.
+  unfold set_edns0. destruct (last_opt (m_ex q)) as [o|].
+  - exists (o_opts o). destruct (negb (o_ver o =? 0)); reflexivity.
+  - exists []. reflexivity.
+Qed.
+
+(* the premise discharged for the tree: from the ingress state, through any sequence of the tree's
+   four writers, to the reply — no premise on the response's own OPTs at all *)
+Lemma options_own_tree_l tr c q strict dn clen r :
+  serve_msg tr c q strict dn clen = Some r -> cfg_wf c ->
+  (forall d o, dn = Some d -> find_req (m_ex d) = Some o ->
+     exists ws, Forall writer_ok ws /\ o_opts o = apply_writers (o_opts (f_wopt (set_edns0 c q))) ws) ->
+  options_own tr c (client_opt q) r = true.
+Proof.
+  intros H Hw Hd. eapply options_own_l; eauto. intros d Hdn. apply (req_opt_clean_tree_l c d Hw).
+  intros o Hf. destruct (Hd d o Hdn Hf) as (ws & Hws & Eo). destruct (ingress_wopt_fwd c q) as (l & El).
+  exists l, ws. rewrite <- El. auto.
+Qed.
